@@ -239,6 +239,8 @@ class Ref:
             H.append(("map", 7, 0, [H[op[1]], H[op[2]]]))
         elif k == "dependon":
             H.append(("map", 0, 0, [H[op[1]], H[op[2]]]))
+            # its built-in cutoff compares timestamps, not values: it may pass an unchanged value on
+            self.cutoffs[len(H) - 1] = "preserve"
         elif k == "bind":
             # outer operands are handle indices; they are resolved now (the closure captures the nodes)
             H.append(("bind", H[op[1]], self.capture(op[2]), []))
